@@ -238,4 +238,45 @@ theorem mem_inputsUsedEnums (tbl : List InputDef) (cds : List InputDef) (e : Nam
   · rintro ⟨c, hc, d, hd, hn, he⟩
     exact ⟨c.name, ⟨c, hc, rfl⟩, d, hd, hn, he⟩
 
+/-! ### Closed form of `generate` -/
+
+theorem foldl_addOperation (ops : List Op) (st : St) :
+    ops.foldl addOperation st =
+      { st with usedEnums := st.usedEnums ++ ops.flatMap (·.resultEnums),
+                argInputs := st.argInputs ++ ops.flatMap (·.varInputs),
+                argEnums := st.argEnums ++ ops.flatMap (·.varEnums) } := by
+  induction ops generalizing st with
+  | nil => simp
+  | cons o ops ih => simp [List.foldl_cons, ih, addOperation, List.append_assoc]
+
+theorem initState_eq (x : Input) :
+    initState x = { usedEnums := resultEnumsOf x, argInputs := varInputsOf x, argEnums := varEnumsOf x } := by
+  simp [initState, foldl_addOperation, resultEnumsOf, varInputsOf, varEnumsOf]
+
+theorem generate_eq (x : Input) :
+    generate x =
+      (filterInputDefs x.inputs (if x.allInputs then none else some (varInputsOf x))).map fun cds =>
+        { inputsModule := cds,
+          enumsModule := filterEnumDefs x.enums (if x.allEnums then none else some (usedEnumsFinal x cds)),
+          inputsEnumImport := inputsUsedEnums x.inputs (names cds),
+          clientInputs := varInputsOf x,
+          clientEnums := varEnumsOf x } := by
+  unfold generate generateWith generateOrder runSteps
+  rw [initState_eq]
+  simp only [List.foldlM_cons, List.foldlM_nil, step]
+  cases hf : filterInputDefs x.inputs (if x.allInputs then none else some (varInputsOf x)) with
+  | none => simp [hf]
+  | some cds =>
+    cases hfr : x.fragEnums with
+    | none => simp [hf, hfr, finish, usedEnumsFinal, fragEnumsOf, names]
+    | some es => simp [hf, hfr, finish, usedEnumsFinal, fragEnumsOf, List.append_assoc, names]
+
+theorem mem_names_filter (l : List InputDef) (p : InputDef → Bool) (n : Name) :
+    n ∈ names (l.filter p) ↔ ∃ c ∈ l, p c = true ∧ c.name = n := by
+  simp [names, List.mem_map, List.mem_filter, and_assoc]
+
+theorem mem_enames_filter (l : List EnumDef) (p : EnumDef → Bool) (n : Name) :
+    n ∈ enames (l.filter p) ↔ ∃ c ∈ l, p c = true ∧ c.name = n := by
+  simp [enames, List.mem_map, List.mem_filter, and_assoc]
+
 end Ariadne.Prune
